@@ -61,6 +61,9 @@ def generate(seed: int, tier: str):
     if kind == "random":
         w = C.gen_world(rng, max_mol=24, max_box=7)
         w["kind"] = "random"
+        # batches are also reached through a short legal history: drop one tomogram by filtering, add it back
+        w["history"] = bool(w["loader"] == "batch" and rng.random() < 0.5)
+        w["history_drop"] = rng.randrange(w["n_tomo"])
     elif kind == "onehot":
         w = gen_onehot_world(rng)
     else:
@@ -96,6 +99,15 @@ def build(w, eager=False):
         world = C.build_world(ws)
         o = Obj()
         o.loader, o.n, o.offsets, o.tomos = world.loader, sum(w["n_mol"]), None, world.tomos
+        o.parts = [(world.tomos[t], world.mols[t]) for t in range(w["n_tomo"])]  # independent model of the batch
+        if w.get("history"):
+            import polars as pl
+
+            k = w["history_drop"]
+            b2 = world.loader.filter(pl.col("image-id") != k)
+            b2.add_tomogram(world.images[k], world.mols[k])
+            o.loader = b2
+        o.kw = dict(order=w["order"], scale=w["scale"], output_shape=tuple(w["box"]), corner_safe=w["corner_safe"])
         return o
     if w["kind"] == "mock":
         from acryo.loader._mock import MockLoader
@@ -320,6 +332,18 @@ def execute(sc):
                     if rows != set(range(n)):
                         raise V("not-a-mean", name, f"average contains molecules {sorted(rows)} of {n}")
             elif name == "batch_parts":
+                if getattr(o, "parts", None) and w.get("loader") == "batch":
+                    # independent expectation: one plain loader per registered tomogram (numpy image), count-weighted
+                    from acryo import SubtomogramLoader
+                    import dask
+
+                    with dask.config.set({"scheduler": Sim(mode="sequential").get}):
+                        indep = [(len(m_), np.asarray(SubtomogramLoader(t_, m_, **o.kw).asnumpy(), dtype=np.float64).sum(axis=0)) for t_, m_ in o.parts]
+                    tot_ = sum(c for c, _ in indep)
+                    exp_ind = sum(a for _, a in indep) / tot_
+                    tol_ = _mean_tol(n, stack) * (4 if not w["edge"] else 64) + (1e-5 if w["edge"] else 0.0)
+                    if tot_ != n or max_abs_diff(v_s["avg"], exp_ind) > tol_:
+                        raise V("not-a-mean", name, f"batch average differs from the count-weighted mean over its tomograms loaded independently (max diff {max_abs_diff(v_s['avg'], exp_ind):.3g}, {n} vs {tot_} molecules)")
                 exp = stack.mean(axis=0)
                 if max_abs_diff(v_s["avg"], exp) > _mean_tol(n, stack):
                     raise V("not-a-mean", name, "batch average is not the mean of all loaded subtomograms")
